@@ -177,7 +177,7 @@ CHECKS = {
         "technique": "property-based testing (rapid) of generated producer/consumer scripts in testing/synctest bubbles; multiset/order/termination oracle",
         "rule": ("kinds chans-merge, replicate, stream-merge. non-trivial = >= 2 non-empty inputs of different lengths (one closes while another still has values), or arity in {0,1}, or an early Close (stream.Merge); replicate: >= 2 destinations and >= 2 values, or zero destinations; distinct = distinct plan JSON; R=3/10"),
         "assumptions": ["testing/synctest durable-block detection", "rapid v1.3.0; go1.26.8"],
-        "jobs": [{"pkg": "c12merge", "kinds": ["chans-merge", "replicate", "stream-merge"], "scale_thorough": 10, "shards_thorough": 16, "replay_reps": 30}],
+        "jobs": [{"pkg": "c12merge", "kinds": ["chans-merge", "chans-merge-iface", "replicate", "stream-merge"], "scale_thorough": 10, "shards_thorough": 16, "replay_reps": 30}],
     },
     "C13": {
         "level": "exploration",
